@@ -7,6 +7,7 @@ From CF Require Import C08.PyVal.
 From CF Require Import C08.Model.
 From CF Require Import C08.FwLayout.
 From CF Require Import C08.Gen_Layout.
+From Coq Require Import Floats.SpecFloat.
 Open Scope Z_scope.
 
 Definition mkenv (args : list pyval) : env := {| e_args := args; e_lists := []; e_codecs := []; e_tail := [] |}.
@@ -74,4 +75,45 @@ Proof. vm_compute. reflexivity. Qed.
 (* lighthouse persist with a duplicated entry: bit 1 and bit 3, not bit 2 *)
 Example persist_dup :
   mask_or [1; 1; 3] = 10 /\ mask_sum [1; 1; 3] = 12.
+Proof. vm_compute. split; reflexivity. Qed.
+
+(* every command can actually send: the hypothesis of C08_decode_encode / C08_payload_le_30 is satisfiable
+   for each of the 30 commands (protocol version 9 and also version 7 where the layout differs) *)
+Definition example_env (c : cmd) : env :=
+  match c with
+  | CSetpoint => mkenv [f1; f2; f3; PInt 1000]
+  | CNotifyStop => mkenv [PInt 5]
+  | CVelocityWorld | CZDistance | CHover | CPosition => mkenv [f1; f2; f3; f4]
+  | CFullState => fs_env f2
+  | CHlGroupMask | CHlStop => mkenv [PInt 1]
+  | CHlTakeoff | CHlLand => mkenv [f1; f2; PInt 0; f3]
+  | CHlGoTo | CHlSpiral => mkenv [f1; f2; f3; f4; f1; PBool true; PBool false; PInt 0]
+  | CHlStartTraj => mkenv [PInt 1; f1; PBool false; PBool true; PInt 0]
+  | CHlDefineTraj => mkenv [PInt 1; PInt 0; PInt 3; PInt 0]
+  | CLocExtPos | CExtposPos => mkenv [f1; f2; f3]
+  | CLocExtPose | CExtposPose => mkenv [f1; f2; f3; f4; f1; f2; f3]
+  | CLocShortLpp => {| e_args := [PInt 7]; e_lists := []; e_codecs := []; e_tail := [1; 2; 3] |}
+  | CLocLhPersist => {| e_args := []; e_lists := [[1; 2]; [3]]; e_codecs := []; e_tail := [] |}
+  | CPlatContWave | CPlatArming => mkenv [PBool true]
+  | CLpsSetPosition => mkenv [PInt 1; f1; f2; f3]
+  | CLpsReboot | CLpsSetMode => mkenv [PInt 1; PInt 2]
+  | _ => mkenv []
+  end.
+
+Definition sends (ver : Z) (c : cmd) : bool :=
+  match run (impl_action c) {| c_ver := ver; c_xmode := true |} (example_env c) with
+  | Sent _ _ _ => true | _ => false end.
+
+Example every_command_sends_v9 : forallb (sends 9) all_cmds = true.
+Proof. vm_compute. reflexivity. Qed.
+Example every_command_but_spiral_sends_v7 :
+  forallb (fun c => match c with CHlSpiral => negb (sends 7 c) | _ => sends 7 c end) all_cmds = true.
+Proof. vm_compute. reflexivity. Qed.
+
+(* the shape of C08_float32_values_exact's hypothesis: the binary64 1.0 is (widen 2^23) * 2^(-23 - 29),
+   and 0.5 * (1 + 2^-23) (the float32 successor of 0.5) likewise *)
+From CF Require Import C08.Proofs_a.
+Example one_is_widened :
+  sf64_of_bits 4607182418800017408 = S754_finite false (widen 8388608) (-23 - 29) /\
+  sf64_of_bits 4602678819709517824 = S754_finite false (widen 8388609) (-24 - 29).
 Proof. vm_compute. split; reflexivity. Qed.
